@@ -47,7 +47,7 @@ DEC = lambda q, t: stream("codec.dec", {"quick": q, "thorough": t, "search": q},
     "canonical encoding of a random representable message, then (1/8) unchanged, (3/8) one or a random combination of the documented "
     "spelling variations (quoted/bare numbers, float respelling, base64 alphabet / padding, enum prefix, RFC3339 offset, member "
     "reordering, whitespace, explicit nulls for absent members, \\u escapes), (4/8) exactly one fault (wrong type, unparsable / "
-    "out-of-range number, invalid base64 / date / decimal / timestamp, unknown enum, unknown key, two keys in a oneof, contradicting "
+    "out-of-range number, invalid base64 / date / decimal / timestamp, unknown enum, unknown key, two keys in a oneof (J5 oneof object or two members of a plain proto oneof), contradicting "
     "!type) at a random position (top / nested / array element / map value / oneof arm) -> JSONToProto. Go oracle: variation decodes to "
     "the same message as the canonical spelling, fault is rejected, accepted => re-encode == canonDoc(document). Non-trivial = accepted "
     "document; distinct by root + document bytes.")
